@@ -352,6 +352,73 @@ def postfix_reduction(rep):
     rep.count('postfix reduction cases evaluated', n)
 
 
+ROW_KINDS = ['prefix', 'left', 'right', 'infix', 'postfix', 'mixfix', 'empty']
+
+
+def row_levels(rep, tier='quick'):
+    """Every row that tags its operators gets a level strictly above the level of every earlier such
+    row - whatever kinds of rows (mixfix, postfix, empty) lie in between.  The emitted loop compares
+    levels with `<` / `==` only (decision tables above: lower = tighter, equal = same row), so two
+    different rows with equal levels are treated as one row and a later row with a lower level binds
+    tighter than an earlier one.  OperatorTable.create is partially evaluated on every sequence of row
+    kinds up to the length below."""
+    import itertools
+    w = SK.World()
+    rep.rule('C02-row-levels', 'OperatorTable.create: the precedence level of a row is strictly greater than the '
+                               'level of every earlier row, for every sequence of row kinds (rows of operands, postfix '
+                               'rows and empty rows included)')
+    cls = w.cls('OperatorTable')
+    where = 'sourcer/expressions/operator_table.py:OperatorTable.create'
+    maxlen = 4 if tier == 'thorough' else 3
+    n = 0
+
+    def tagged(t):
+        out = {}
+        for bucket in ('prefixes', 'infixes', 'postfixes'):
+            v = t.d.get(bucket)
+            if v is None:
+                continue
+            items = v.d['exprs'] if isinstance(v, M.Obj) and v.cls.name == 'Longest' else [v]
+            for it in items:
+                if not (isinstance(it, M.Obj) and it.cls.name == 'Apply'):
+                    raise AnalysisError(f'OperatorTable.create: entry of {bucket} is not tagged through Apply')
+                src = it.d['expr2'].d.get('source_code') if isinstance(it.d['expr2'], M.Obj) else None
+                try:
+                    lam = ast.parse(src, mode='eval').body
+                    level = lam.body.elts[0].value
+                except Exception:
+                    raise AnalysisError(f'OperatorTable.create: unreadable tagger {src!r}')
+                if not isinstance(level, int) or isinstance(level, bool):
+                    raise AnalysisError(f'OperatorTable.create: level slot of {src!r} is not an integer constant')
+                op = it.d['expr1']
+                out[op.label if isinstance(op, M.AbsChild) else None] = level
+        return out
+
+    for length in range(1, maxlen + 1):
+        for kinds in itertools.product(ROW_KINDS, repeat=length):
+            rows = [types.SimpleNamespace(associativity='left' if k == 'empty' else k,
+                                          operators=[] if k == 'empty' else [SK.A(f'o{i}', 'CP')])
+                    for i, k in enumerate(kinds)]
+            t = w.it.call(w.it.getattr(cls, 'create'), [], dict(operand=SK.A('opd', 'CP'), rows=rows))
+            lv = tagged(t)
+            n += 1
+            seq = [(i, k, lv.get(f'o{i}')) for i, k in enumerate(kinds) if k not in ('mixfix', 'empty')]
+            if any(l is None for _, _, l in seq):
+                raise AnalysisError(f'OperatorTable.create: rows {kinds}: a tagged row was not found in its bucket')
+            ok = all(a[2] < b[2] for a, b in zip(seq, seq[1:]))
+            rep.oblige(ok)
+            if not ok:
+                a, b_ = next((a, b_) for a, b_ in zip(seq, seq[1:]) if not a[2] < b_[2])
+                rep.add(Finding('C02-row-levels', 'OperatorTable', '',
+                                f'rows {list(kinds)}: row {a[0]} (`{a[1]}`) gets level {a[2]} and the later row '
+                                f'{b_[0]} (`{b_[1]}`) gets level {b_[2]}: the emitted loop reduces a pending operator '
+                                f'only when its level is strictly lower, so the earlier row does not bind tighter '
+                                f'than the later one', where, {'rows': list(kinds), 'levels': seq}))
+                return
+    rep.count('row-kind sequences evaluated through OperatorTable.create', n)
+    rep.floor('row-kind sequences evaluated through OperatorTable.create', n, 7 + 49 + 343)
+
+
 def longest_ties(rep):
     """Among rows matching at the same place the longest match wins, first on ties: the
     emitted update test is a strict `<` on the position."""
